@@ -3,7 +3,6 @@
  * Included by harness/evbuf.c and harness/evbuf_io.c. */
 #ifndef EVBUF_COMMON_H
 #define EVBUF_COMMON_H
-#define _GNU_SOURCE
 #include "mcx.h"
 #include "bytestr.h"
 #include <stdio.h>
@@ -17,18 +16,20 @@
 #include <sys/uio.h>
 #include <event2/event.h>
 #include <event2/buffer.h>
+#include <event2/buffer_compat.h>
 #include "evbuffer-internal.h"
 #include "mm-internal.h"
 
 #define CAP ((size_t)(MIN_BUFFER_SIZE - EVBUFFER_CHAIN_SIZE))   /* payload of the smallest chain */
 
 static const char *PFX = "C12";          /* property prefix of every failure key */
+static const char *ORACLE_OVERRIDE;      /* set while validating the outcome of a faulted call (C14) */
 
 static void failk(const char *oracle, const char *op, const char *fmt, ...) __attribute__((format(printf,3,4)));
 static void failk(const char *oracle, const char *op, const char *fmt, ...)
 {
 	char key[160], msg[1000]; va_list ap;
-	snprintf(key, sizeof key, "%s/%s/%s", PFX, oracle, op);
+	snprintf(key, sizeof key, "%s/%s/%s", PFX, ORACLE_OVERRIDE ? ORACLE_OVERRIDE : oracle, op);
 	va_start(ap, fmt); vsnprintf(msg, sizeof msg, fmt, ap); va_end(ap);
 	mc_fail(key, "%s", msg);
 }
